@@ -240,6 +240,15 @@ def zgrid(rng, nz, stretched=None):
 
 
 def random_source(rng, ny, nx, kind=None):
+    """a surface-flux field; a quarter of them at a magnitude far from one (the model is exactly linear, so
+    nothing in the response may depend on the absolute size of the source: trace-gas fluxes are ~1e-8)"""
+    q = _random_source(rng, ny, nx, kind)
+    if rng.random() < 0.25:
+        q = q * float(10.0 ** rng.uniform(-12, 5))
+    return q
+
+
+def _random_source(rng, ny, nx, kind=None):
     kind = kind or rng.choice(["random", "sparse", "smooth", "signed", "dipole", "zero"], p=[0.25, 0.2, 0.2, 0.2, 0.1, 0.05])
     if kind == "zero":
         return np.zeros((ny, nx))
@@ -313,7 +322,7 @@ def random_case(rng, small=True, **over):
     else:
         xm, ym = float(rng.uniform(0, xmx)), float(rng.uniform(0, ymx))
     case = dict(q=random_source(rng, ny, nx), z=z, profiles=prof, domain=(xmx, ymx), levels=levels,
-                modes=(nlx, nly), meas_pt=(xm, ym), bg=float(rng.choice([0.0, rng.normal()])),
+                modes=(nlx, nly), meas_pt=(xm, ym), bg=float(rng.choice([0.0, rng.normal(), rng.normal() * 10.0 ** rng.uniform(-12, 0)])),
                 footprint=footprint, analytic=analytic, halo=halo,
                 precision=str(rng.choice(["double", "double", "single"])))
     case.update(over)
